@@ -119,6 +119,7 @@ type Exec struct {
 	regC   *canon
 	pubC   *canon
 	badIDs int
+	baseRegs map[wamp.ID]bool // registrations of the realm's own meta procedures
 	base   map[string]int
 	baseG  int
 }
@@ -176,6 +177,7 @@ func (x *Exec) RunScenario(sc *Scenario) {
 	for i := range sc.Cfg.Hcfg {
 		x.subC.of(wamp.ID(i + 1))
 	}
+	x.learnBaseline()
 	x.base, _, _ = router.VerifSnapshot(rt, realmURI)
 	x.baseG = x.routerGoroutines()
 	x.emit(Event{Ev: "reset", Scn: sc.ID, Cfg: normCfg(sc.Cfg)})
@@ -218,6 +220,9 @@ func (x *Exec) emit(ev Event) {
 	if ev.Snap == nil {
 		ev.Snap = []SnapKV{}
 	}
+	if ev.Bind.Hp == nil {
+		ev.Bind.Hp = []int{}
+	}
 	ev.In = normInput(ev.In)
 	ev.Cfg = normCfg(ev.Cfg)
 	if err := x.enc.Encode(ev); err != nil {
@@ -256,6 +261,12 @@ func normInput(in Input) Input {
 	}
 	if in.Join.Feats == nil {
 		in.Join.Feats = []string{}
+	}
+	if in.Uri2 == nil {
+		in.Uri2 = []string{}
+	}
+	if in.F.Topic == nil {
+		in.F.Topic = []string{}
 	}
 	return in
 }
@@ -566,6 +577,14 @@ func (x *Exec) step(sc *Scenario, in Input) {
 			p.dropped = true
 			p.cli.Close()
 		}
+	case "metacall":
+		if !live {
+			skip()
+			return
+		}
+		args, kw := x.metaArgs(in)
+		p.callReq[req] = string(uri)
+		p.send(&wamp.Call{Request: req, Options: wamp.Dict{}, Procedure: uri, Arguments: args, ArgumentsKw: kw})
 	case "advance":
 		time.Sleep(time.Duration(in.Ms) * time.Millisecond)
 	case "snap":
@@ -668,7 +687,7 @@ func sortPairs(p [][2]string) [][2]string {
 }
 
 func blank(k string, t int) Msg {
-	return Msg{K: k, U: []string{}, V: []string{}, W: []string{}, D: [][2]string{}, Pd: [][2]string{}, Ids: []int{}, T: t}
+	return Msg{K: k, U: []string{}, V: []string{}, W: []string{}, D: [][2]string{}, Pd: [][2]string{}, Ids: []int{}, Hl: []HistEntry{}, T: t}
 }
 
 func (x *Exec) identPairs(d wamp.Dict, keys ...string) [][2]string {
@@ -796,6 +815,10 @@ func (x *Exec) abstract(p *peer, s stamped) Msg {
 			d = append(d, [2]string{k, str(v)})
 		}
 		r.D = sortPairs(d)
+		if proc, ok := p.callReq[m.Request]; ok && strings.HasPrefix(proc, "wamp.") {
+			x.abstractMetaResult(&r, proc, m)
+			return r
+		}
 		r.P = tagOf(m.Arguments, m.ArgumentsKw)
 		return r
 	case *wamp.Interrupt:
@@ -837,8 +860,12 @@ func (x *Exec) abstractEvent(p *peer, m *wamp.Event, t int) Msg {
 	r.V = chars(topic)
 	x.chk(m.Publication)
 	if !strings.HasPrefix(topic, "wamp.") {
-		r.B = x.pubC.of(m.Publication)
 		r.P = tagOf(m.Arguments, m.ArgumentsKw)
+		// testament publications (tags "T...") are published by the router's
+		// meta session; their publication id is not compared
+		if !strings.HasPrefix(r.P, "T") {
+			r.B = x.pubC.of(m.Publication)
+		}
 		return r
 	}
 	// meta events: positional payload
@@ -863,8 +890,8 @@ func (x *Exec) abstractEvent(p *peer, m *wamp.Event, t int) Msg {
 			id, _ := wamp.AsID(det["id"])
 			var pd [][2]string
 			mt, _ := wamp.AsString(det["match"])
-			if mt == "" {
-				mt = "exact"
+			if mt != "prefix" && mt != "wildcard" {
+				mt = "exact" // "", "exact" and unknown policies all mean exact matching
 			}
 			pd = append(pd, [2]string{"match", mt})
 			if topic == "wamp.subscription.on_create" {
@@ -935,9 +962,294 @@ func (x *Exec) collect(in Input) ([]SessOut, Bind) {
 				if in.Op == "call" && m.P == in.Tag {
 					b.Inv, b.Reg, b.Callee = m.Req, m.A, name
 				}
+			case "RESULT":
+				if in.Op == "metacall" && name == in.S && m.Req == in.Req {
+					switch unchars(in.URI) {
+					case "wamp.registration.match":
+						b.Reg = m.X
+					case "wamp.subscription.get_events":
+						for _, h := range m.Hl {
+							b.Hp = append(b.Hp, h.B)
+						}
+					}
+				}
 			}
 		}
 		outs = append(outs, so)
 	}
 	return outs, b
+}
+
+// ---------------------------------------------------------------------------
+// meta API
+
+func (x *Exec) vtime(ms int) string {
+	return x.start.Add(time.Duration(ms) * time.Millisecond).Format(time.RFC3339Nano)
+}
+
+// metaArgs builds the arguments of a meta procedure call from the abstract input.
+func (x *Exec) metaArgs(in Input) (wamp.List, wamp.Dict) {
+	proc := unchars(in.URI)
+	strs := func() wamp.List {
+		l := wamp.List{}
+		for _, a := range in.Args {
+			l = append(l, a)
+		}
+		return l
+	}
+	kill := func() wamp.Dict {
+		kw := wamp.Dict{}
+		if len(in.Uri2) != 0 {
+			kw["reason"] = unchars(in.Uri2)
+		}
+		return kw
+	}
+	switch proc {
+	case "wamp.session.count", "wamp.session.list":
+		if len(in.Args) == 0 {
+			return nil, nil
+		}
+		return wamp.List{strs()}, nil
+	case "wamp.session.get":
+		return wamp.List{x.sessC.raw(in.ID)}, nil
+	case "wamp.session.kill":
+		return wamp.List{x.sessC.raw(in.ID)}, kill()
+	case "wamp.session.kill_by_authid", "wamp.session.kill_by_authrole":
+		return strs(), kill()
+	case "wamp.session.kill_all":
+		return nil, kill()
+	case "wamp.registration.lookup", "wamp.subscription.lookup":
+		if in.O.Match != "" {
+			return wamp.List{unchars(in.Uri2), wamp.Dict{"match": in.O.Match}}, nil
+		}
+		return wamp.List{unchars(in.Uri2)}, nil
+	case "wamp.registration.match", "wamp.subscription.match":
+		return wamp.List{unchars(in.Uri2)}, nil
+	case "wamp.registration.get", "wamp.registration.list_callees", "wamp.registration.count_callees":
+		return wamp.List{x.regC.raw(in.ID)}, nil
+	case "wamp.subscription.get", "wamp.subscription.list_subscribers", "wamp.subscription.count_suscribers":
+		return wamp.List{x.subC.raw(in.ID)}, nil
+	case "wamp.session.add_testament":
+		a, kw := payload(in.Tag)
+		k := wamp.Dict{"publish_options": pubOptions(x, in.O)}
+		if in.How != "" {
+			k["scope"] = in.How
+		}
+		return wamp.List{unchars(in.Uri2), a, kw}, k
+	case "wamp.session.flush_testaments":
+		k := wamp.Dict{}
+		if in.How != "" {
+			k["scope"] = in.How
+		}
+		return nil, k
+	case "wamp.subscription.get_events":
+		kw := wamp.Dict{}
+		f := in.F
+		if f.Limit != 0 {
+			kw["limit"] = f.Limit
+		}
+		if f.Reverse {
+			kw["reverse"] = true
+		}
+		for k, v := range map[string]int{"from_time": f.FromT, "after_time": f.AfterT, "before_time": f.BeforeT, "until_time": f.UntilT} {
+			if v != 0 {
+				kw[k] = x.vtime(v)
+			}
+		}
+		for k, v := range map[string]int{"from_publication": f.FromP, "after_publication": f.AfterP, "before_publication": f.BeforeP, "until_publication": f.UntilP} {
+			if v != 0 {
+				kw[k] = x.pubC.raw(v)
+			}
+		}
+		if len(f.Topic) != 0 {
+			kw["topic"] = unchars(f.Topic)
+		}
+		return wamp.List{x.subC.raw(in.ID)}, kw
+	}
+	return nil, nil
+}
+
+// generic converts any value (including unexported router structs handed to
+// in-process peers) into plain JSON-like data.
+func generic(v any) any {
+	b, err := json.Marshal(v)
+	if err != nil {
+		return fmt.Sprint(v)
+	}
+	var out any
+	dec := json.NewDecoder(bytes.NewReader(b))
+	dec.UseNumber()
+	if err := dec.Decode(&out); err != nil {
+		return fmt.Sprint(v)
+	}
+	return out
+}
+
+func num(v any) (wamp.ID, bool) {
+	switch n := v.(type) {
+	case json.Number:
+		i, err := n.Int64()
+		if err != nil {
+			return 0, false
+		}
+		return wamp.ID(i), true
+	}
+	if i, ok := wamp.AsInt64(v); ok {
+		return wamp.ID(i), true
+	}
+	return 0, false
+}
+
+func (x *Exec) abstractMetaResult(r *Msg, proc string, m *wamp.Result) {
+	r.Y = 1
+	arg0 := any(nil)
+	if len(m.Arguments) > 0 {
+		arg0 = generic(m.Arguments[0])
+	}
+	idList := func(c *canon, v any) []int {
+		out := []int{}
+		l, _ := v.([]any)
+		for _, e := range l {
+			if id, ok := num(e); ok {
+				out = append(out, c.of(x.chk(id)))
+			}
+		}
+		sort.Ints(out)
+		return out
+	}
+	byMatch := func(c *canon, v any) [][2]string {
+		var pd [][2]string
+		d, _ := v.(map[string]any)
+		for k, l := range d {
+			ll, _ := l.([]any)
+			for _, e := range ll {
+				id, ok := num(e)
+				if !ok || (c == x.regC && x.baseRegs[id]) {
+					continue // the realm's own meta procedure registrations are the baseline
+				}
+				pd = append(pd, [2]string{k, strconv.Itoa(c.of(x.chk(id)))})
+			}
+		}
+		sort.Slice(pd, func(i, j int) bool { return pd[i][0]+pd[i][1] < pd[j][0]+pd[j][1] })
+		if pd == nil {
+			pd = [][2]string{}
+		}
+		return pd
+	}
+	count := func() int {
+		n, _ := num(arg0)
+		return int(n)
+	}
+	switch proc {
+	case "wamp.session.count", "wamp.session.kill_by_authid", "wamp.session.kill_by_authrole", "wamp.session.kill_all",
+		"wamp.registration.count_callees", "wamp.subscription.count_suscribers":
+		r.X = count()
+	case "wamp.session.list", "wamp.registration.list_callees", "wamp.subscription.list_subscribers":
+		r.Ids = idList(x.sessC, arg0)
+	case "wamp.session.get":
+		if d, ok := wamp.AsDict(m.Arguments[0]); ok && d != nil {
+			r.X = x.sessID(d["session"])
+			r.Pd = x.identPairs(d, "authid", "authrole", "authmethod", "authprovider")
+		}
+	case "wamp.registration.list":
+		r.Pd = byMatch(x.regC, arg0)
+	case "wamp.subscription.list":
+		r.Pd = byMatch(x.subC, arg0)
+	case "wamp.registration.lookup", "wamp.registration.match":
+		if id, ok := num(arg0); ok && id != 0 {
+			r.X = x.regC.of(x.chk(id))
+		}
+	case "wamp.subscription.lookup":
+		if id, ok := num(arg0); ok && id != 0 {
+			r.X = x.subC.of(x.chk(id))
+		}
+	case "wamp.subscription.match":
+		r.Ids = idList(x.subC, arg0)
+	case "wamp.registration.get", "wamp.subscription.get":
+		d, _ := arg0.(map[string]any)
+		id, _ := num(d["id"])
+		mt, _ := d["match"].(string)
+		if mt != "prefix" && mt != "wildcard" {
+			mt = "exact"
+		}
+		pd := [][2]string{{"match", mt}}
+		if proc == "wamp.registration.get" {
+			r.X = x.regC.of(x.chk(id))
+			iv, _ := d["invoke"].(string)
+			pd = append(pd, [2]string{"invoke", iv})
+		} else {
+			r.X = x.subC.of(x.chk(id))
+		}
+		if u, ok := d["uri"].(string); ok {
+			r.W = chars(u)
+		}
+		r.Pd = sortPairs(pd)
+	case "wamp.subscription.get_events":
+		for _, a := range m.Arguments {
+			e, _ := generic(a).(map[string]any)
+			get := func(names ...string) any {
+				for _, n := range names {
+					if v, ok := e[n]; ok {
+						return v
+					}
+				}
+				return nil
+			}
+			h := HistEntry{V: []string{}}
+			if id, ok := num(get("Publication", "publication")); ok {
+				h.B = x.pubC.of(x.chk(id))
+			}
+			topic := ""
+			if det, ok := get("Details", "details").(map[string]any); ok {
+				if t, ok := det["topic"].(string); ok {
+					topic = t
+				}
+			}
+			if topic == "" {
+				// exact history subscription: the topic is the subscription's own
+				topic = "="
+			}
+			h.V = chars(topic)
+			var args wamp.List
+			if l, ok := get("Arguments", "arguments", "args").([]any); ok {
+				args = l
+			}
+			kw := wamp.Dict{}
+			if d, ok := get("ArgumentsKw", "argumentskw", "kwargs").(map[string]any); ok {
+				kw = d
+			}
+			h.P = tagOf(args, kw)
+			r.Hl = append(r.Hl, h)
+		}
+	}
+}
+
+// learnBaseline lets an auxiliary session ask for the registrations that exist
+// right after start-up (the realm's meta procedures); they are the baseline
+// that wamp.registration.list answers are reported relative to.
+func (x *Exec) learnBaseline() {
+	x.baseRegs = map[wamp.ID]bool{}
+	cli, rtr := transport.LinkedPeers()
+	go func() { _ = x.rt.Attach(rtr) }()
+	cli.Send() <- &wamp.Hello{Realm: realmURI, Details: helloDetails(Join{Authid: "aux", Local: true})}
+	if _, ok := (<-cli.Recv()).(*wamp.Welcome); !ok {
+		panic("harness: auxiliary session not welcomed")
+	}
+	cli.Send() <- &wamp.Call{Request: 1, Options: wamp.Dict{}, Procedure: wamp.MetaProcRegList}
+	if res, ok := (<-cli.Recv()).(*wamp.Result); ok && len(res.Arguments) > 0 {
+		if d, ok := generic(res.Arguments[0]).(map[string]any); ok {
+			for _, l := range d {
+				ll, _ := l.([]any)
+				for _, e := range ll {
+					if id, ok := num(e); ok {
+						x.baseRegs[id] = true
+					}
+				}
+			}
+		}
+	}
+	cli.Send() <- &wamp.Goodbye{Reason: wamp.CloseRealm, Details: wamp.Dict{}}
+	for range cli.Recv() {
+	}
+	synctest.Wait()
 }
